@@ -172,6 +172,8 @@ def coq_makefile():
 def coq_make(targets, timeout=1800):
     """full .vo build of the given targets (never -vos).  returns (ok, output)"""
     with Lock('coq'):
+        import gen_tables
+        gen_tables.main()              # regenerate coq/Gen/*.v from the current /repo/src (write-if-changed)
         coq_makefile()
         rc, out = sh(['timeout', str(timeout), 'make', '-k', '-j%d' % NPROC] + targets, cwd=COQ, timeout=timeout + 60)
     return rc == 0, out
